@@ -591,6 +591,7 @@ fn main() {
             "ctx" => do_ctx(&c, &mut w),
             "ident" => sets::do_ident(&c, &mut w),
             "fmt" => fmt::do_fmt(&c, &mut w),
+            "fmtval" => fmt::do_fmtval(&c, &mut w),
             other => panic!("unknown mode {}", other),
         }
     }
